@@ -118,6 +118,8 @@ def run_dw(case):
     out.cls("version=%d" % case["version"], "rebalancing=%s" % case["rebalancing"], "boundary=%s" % boundary)
     if st_["strict"]:
         out.cls("strict-subset-step")
+    if case.get("legs"):
+        out.cls("history-cut-into-%d-runs" % min(len(case["legs"]) + 1, 4))
     out.info = dict(max_steps=st_["steps"], max_components=len(comps))
     return out
 
